@@ -19,14 +19,22 @@ class CapturedPath:
         "Line: {}".format(self))
     return self._compute_captured_path()[0]
 
-  def _compute_captured_path(self):
+  def _compute_captured_path(self, visiting = ()):
+    # visiting: the groups whose captured path is being computed
+    # (a group which, directly or indirectly, contains itself has no path)
+    if any(group is self for group in visiting):
+      raise gfapy.InconsistencyError(
+        "Captured path cannot be computed; the group contains itself\n"+
+        "Line: {}".format(self))
+    visiting = visiting + (self,)
     path = []
     prev_edge = False
     for item in self.items:
-      path, prev_edge = self._push_item_on_se_path(path, prev_edge, item)
+      path, prev_edge = self._push_item_on_se_path(path, prev_edge, item,
+                                                   visiting)
     return path, prev_edge
 
-  def _push_item_on_se_path(self, path, prev_edge, item):
+  def _push_item_on_se_path(self, path, prev_edge, item, visiting = ()):
     if isinstance(item.line, str):
       raise gfapy.RuntimeError(
         "Captured path cannot be computed; a reference has not been resolved\n"+
@@ -47,7 +55,7 @@ class CapturedPath:
           "Line: {}\n".format(self)+
           "Item: {}".format(item.line))
       if not path:
-        self._push_first_edge_on_se_path(path, self.items)
+        self._push_first_edge_on_se_path(path, self.items, visiting)
       else:
         self._push_nonfirst_edge_on_se_path(path, item)
       prev_edge = True
@@ -57,17 +65,17 @@ class CapturedPath:
           "Captured path cannot be computed; item is not connected\n"+
           "Line: {}\n".format(self)+
           "Item: {}".format(item.line))
-      subpath, prev_edge_subpath = item.line._compute_captured_path()
+      subpath, prev_edge_subpath = item.line._compute_captured_path(visiting)
       if not subpath:
         raise gfapy.AssertionError()
       if item.orient == "+":
         for subpath_item in subpath:
           path, prev_edge = self._push_item_on_se_path(path, prev_edge,
-              subpath_item)
+              subpath_item, visiting)
       else:
         for subpath_item in reversed(subpath):
           path, prev_edge = self._push_item_on_se_path(path, prev_edge,
-              subpath_item.inverted())
+              subpath_item.inverted(), visiting)
         # the reversed subpath ends with the first segment of the subpath
         prev_edge_subpath = item.line._is_se_path_end_from_edge(False)
       prev_edge = prev_edge_subpath
@@ -91,7 +99,7 @@ class CapturedPath:
       return item.line._is_se_path_end_from_edge(last == (item.orient == "+"))
     return isinstance(item.line, gfapy.line.edge.GFA2)
 
-  def _push_first_edge_on_se_path(self, path, items):
+  def _push_first_edge_on_se_path(self, path, items, visiting = ()):
     oriented_edge = items[0]
     oss = [oriented_edge.line.sid1, oriented_edge.line.sid2]
     if oriented_edge.orient == "-":
@@ -116,7 +124,7 @@ class CapturedPath:
         # if oss_of_next have no element in common with oss an error will be
         # raised in the next iteration, so does not need to be handled here
       elif isinstance(nextitem.line, gfapy.line.group.Ordered):
-        subpath = nextitem.line.captured_path
+        subpath = nextitem.line._compute_captured_path(visiting)[0]
         if not subpath: return# does not need to be further handled here
         if nextitem.orient == "+":
           firstsubpathsegment = subpath[0]
